@@ -218,7 +218,7 @@ func TestVerifC07RaftHistories(t *testing.T) {
 		snapped := false
 		steps := rapid.IntRange(6, 18).Draw(rt, "steps")
 		for s := 0; s < steps; s++ {
-			act := rapid.SampledFrom([]string{"cmd", "cmd", "cmd", "cmd", "kill", "restart", "restartAll", "snapshot", "killLeader"}).Draw(rt, "action")
+			act := rapid.SampledFrom([]string{"cmd", "cmd", "cmd", "cmd", "kill", "restart", "restartAll", "snapshot", "snapshot", "killLeader"}).Draw(rt, "action")
 			switch act {
 			case "cmd":
 				if cl.upCount() < 2 {
@@ -371,6 +371,12 @@ func TestVerifC07RaftHistories(t *testing.T) {
 			if all && canons[0] == canons[1] && canons[1] == canons[2] {
 				converged = true
 				break
+			}
+			if all {
+				// every node has applied the barrier command, hence (raft applies in log order) every command
+				// acknowledged before it: the replicas are at the same point of the same log and must be equal
+				// now - waiting longer cannot repair a difference
+				rt.Fatalf("%s after the final restart every meta node has applied the barrier command, but the replicas hold different metadata (a node restored from a log snapshot, or replayed its log, into a different state); history %v\nnode 0: %s\nnode 1: %s\nnode 2: %s", verifkit.Sig("replicas-diverge-after-restart"), actions, canons[0], canons[1], canons[2])
 			}
 			time.Sleep(100 * time.Millisecond)
 		}
